@@ -41,6 +41,7 @@ struct RunOutput
     std::vector<uint64_t> shapes;  // modes that cover many distinct cases per run (C14: one per fault position)
     long evaluations = 1;      // executions performed by this run
     std::vector<int> executed_schedule;  // C20: the scheduling decisions that were taken (explicit schedule of the replay)
+    std::vector<long> executed_gaps;     // C20: the edge-pre-emption gaps that were used, in draw order
     bool nontrivial = false;
     RunStats stats;
     std::string engine_error;  // non-empty: machinery problem (exit 2), never a violation
